@@ -1,4 +1,5 @@
 import Capella.Lemmas.Reqif
+import Capella.Lemmas.ReqifXml
 
 /-!
 # C20 — ReqIF export is closed, unique and covers every requirement exactly once
@@ -204,6 +205,92 @@ theorem compress_decision (t : Target) :
 theorem old_decision_ignores_explicit (t : Target) : compressDecisionOld t (some true) = false := by
   cases t <;> rfl
 
+/-! ## the element tree that is serialised -/
+
+/-- The skeleton of every exported tree: `REQ-IF` holds exactly `THE-HEADER` and `CORE-CONTENT`, in
+that order; the header holds one `REQ-IF-HEADER` identified by the model's uuid with the six fields
+once each (comment, creation time, tool ids, version `1.1`, title — the metadata values where given, the
+module's long name as default title); the content holds the six sections once each, in schema order,
+`SPEC-RELATIONS` and `SPEC-RELATION-GROUPS` empty, one element per datatype / spec type (+ the
+specification type) / spec object, and one `SPECIFICATION`. -/
+theorem tree_skeleton (e : Env) (md : Metadata) (m : Module) (d : Doc) :
+    d.toXml (header e md m) =
+      .el (tg "REQ-IF") [((tg "xsi:schemaLocation"), schemaLocation)] none
+        [wrapEl (tg "THE-HEADER")
+          [.el (tg "REQ-IF-HEADER") [(sIDENTIFIER, '_' :: d.headerUuid)] none
+            [textEl (tg "COMMENT") (md.comment.getD e.defaultComment),
+             textEl (tg "CREATION-TIME") (md.creationTime.getD e.now),
+             textEl (tg "REQ-IF-TOOL-ID") e.toolId,
+             textEl (tg "REQ-IF-VERSION") "1.1".toList,
+             textEl (tg "SOURCE-TOOL-ID") e.sourceToolId,
+             textEl (tg "TITLE") (md.title.getD m.longName)]],
+         wrapEl (tg "CORE-CONTENT")
+          [wrapEl (tg "REQ-IF-CONTENT")
+            [wrapEl (tg "DATATYPES") (d.datatypes.map (DatatypeEl.toXml (md.creationTime.getD e.now))),
+             wrapEl (tg "SPEC-TYPES") (d.specTypes.map (SpecTypeEl.toXml (md.creationTime.getD e.now))
+               ++ [d.specificationType.toXml (md.creationTime.getD e.now)]),
+             wrapEl (tg "SPEC-OBJECTS") (d.specObjects.map (SpecObjectEl.toXml (md.creationTime.getD e.now))),
+             wrapEl (tg "SPEC-RELATIONS") [],
+             wrapEl (tg "SPECIFICATIONS") [d.specification.toXml (md.creationTime.getD e.now)],
+             wrapEl (tg "SPEC-RELATION-GROUPS") []]]] :=
+  rfl
+
+/-- Every element of the tree that is identifiable in ReqIF (datatype and attribute definitions, enum
+values, spec types, spec objects, the specification, hierarchy entries, the header) carries an
+`IDENTIFIER`; every identified element except the header carries `LAST-CHANGE`, and its value is the
+header's creation time; no other element carries either attribute. -/
+theorem tree_identified (h : HeaderEl) (d : Doc) : (d.toXml h).all (identCheck h.creationTime) = true :=
+  Doc.toXml_all h d
+
+/-- Scanning the tree for `IDENTIFIER` attributes yields, in document order, exactly the rendered
+identifiers `Doc.defs` the theorems above speak about. -/
+theorem tree_identifiers (h : HeaderEl) (d : Doc) : (d.toXml h).idents = d.defs.map Ident.render :=
+  Doc.toXml_idents h d
+
+/-- Scanning the tree for elements whose tag ends in `-REF` yields, in document order, exactly the
+rendered references `Doc.refs` (for every document whose simple values carry no enumeration references,
+which holds for every document the model builds). -/
+theorem tree_references (x : Str → Option Str) (m : Module) (h : HeaderEl) :
+    ((doc x m).toXml h).refTexts = (doc x m).refs.map Ident.render :=
+  Doc.toXml_refTexts h _ (doc_valuesShaped x m)
+
+/-- Closed, on the tree: the text of every `*-REF` element of an exported tree is the `IDENTIFIER`
+attribute of an element of the same tree. -/
+theorem tree_refs_closed (x : Str → Option Str) (e : Env) (md : Metadata) (m : Module) (t : Xml)
+    (h : exportXml x e md m = .ok t) (hI : Identity m) (hT : Typed m) : ∀ s ∈ t.refTexts, s ∈ t.idents := by
+  unfold exportXml at h
+  split at h
+  · cases h
+  · next d hd =>
+    cases h
+    have hdoc := export_eq_doc x m d hd
+    subst hdoc
+    intro s hs
+    rw [tree_references] at hs
+    rw [tree_identifiers]
+    obtain ⟨i, hi, rfl⟩ := List.mem_map.mp hs
+    exact List.mem_map.mpr ⟨i, refs_closed x m _ hd hI hT i hi, rfl⟩
+
+/-- Unique, on the tree: the `IDENTIFIER` attribute values of an exported tree are pairwise distinct
+strings. -/
+theorem tree_ids_unique (x : Str → Option Str) (e : Env) (md : Metadata) (m : Module) (t : Xml)
+    (h : exportXml x e md m = .ok t) (hI : Identity m) (hS : UuidShaped m) : t.idents.Nodup := by
+  unfold exportXml at h
+  split at h
+  · cases h
+  · next d hd =>
+    cases h
+    rw [tree_identifiers]
+    exact id_strings_unique x m d hd hI hS
+
+/-- The tree exists exactly when the abstract export succeeds, and then it is the tree of `doc x m`
+under the header built from the metadata. -/
+theorem tree_of_export (x : Str → Option Str) (e : Env) (md : Metadata) (m : Module)
+    (hx : (x emptyDiv).isSome = true) (hdiv : ∀ s, (x (wrapDiv s)).isSome = true) (hE : hasEnumWithoutDef m = false) :
+    exportXml x e md m = .ok ((doc x m).toXml (header e md m)) := by
+  unfold exportXml
+  rw [export_total_partial x m hx hdiv hE]
+
 /-! ## the theorems are not vacuous -/
 
 section examples
@@ -278,6 +365,14 @@ example : ((specObject conv r1).std.map (·.theValue))[2]? = some (some "a&lt;b"
 /-- and the integer value reads back. -/
 example : Value.decode .integer (Value.int (-5)).render [] = some (.int (-5)) :=
   Value.decode_render (.int (-5)) trivial
+
+/-- the tree of the example module: 35 identifiers and 42 references found by the generic scans, every
+reference text is an identifier text, the check of identified elements holds -/
+example : ((doc conv m0).toXml (header ⟨"c".toList, "2020-01-01T00:00:00Z".toList, "t".toList, "s".toList⟩ ⟨none, none, none⟩ m0)).idents.length = 35
+    ∧ ((doc conv m0).toXml (header ⟨"c".toList, "2020-01-01T00:00:00Z".toList, "t".toList, "s".toList⟩ ⟨none, none, none⟩ m0)).refTexts.length = 42 := by
+  rw [tree_identifiers, tree_references]
+  simp only [List.length_map]
+  decide
 
 end examples
 
